@@ -110,9 +110,14 @@ pub fn gen_value(rng: &mut Rng, len: usize) -> String {
 }
 
 fn gen_token(rng: &mut Rng, len: usize) -> String {
-    let alpha = b"abcdefghijklmnopqrstuvwxyz0123456789-_.";
+    // RFC 9110 token characters (lower-case letters only, as HTTP/3 requires of field names)
+    let alpha = b"abcdefghijklmnopqrstuvwxyz0123456789-_.!#$%&'*+^`|~";
     let mut s: Vec<u8> = (0..len.max(1)).map(|_| *rng.pick(alpha)).collect();
-    s[0] = b'x';
+    // mostly a letter first; otherwise any token character - digits and ! # $ % & ' * + - . sort
+    // below ':' (pseudo-headers must still come first on the wire), ^ _ ` | ~ above the letters
+    if rng.chance_pm(600) {
+        s[0] = b'x';
+    }
     String::from_utf8(s).unwrap()
 }
 
